@@ -438,7 +438,8 @@ def run_to_completion(state: State, external_event: Union[dict, Event]) -> State
 
         advancing_heads = _resolve_action_conflicts(state, actionable_heads)
 
-        heads_are_advancing = len(advancing_heads) > 0
+        # A flow that failed during the action conflict resolution creates new internal events
+        heads_are_advancing = len(advancing_heads) > 0 or len(state.internal_events) > 0
         actionable_heads = _advance_head_front(state, advancing_heads)
         heads_are_merging = True
 
@@ -782,6 +783,16 @@ def _fail_flow_with_runtime_error(
     _abort_flow(state, flow_state, head.matching_scores)
 
 
+def _generate_action_event_or_fail_flow(state: State, head: FlowHead) -> bool:
+    """Generate the action event for an actionable head. A runtime error only fails the related flow."""
+    try:
+        _generate_action_event_from_actionable_element(state, head)
+        return True
+    except Exception as e:
+        _fail_flow_with_runtime_error(state, head, e)
+        return False
+
+
 def _resolve_action_conflicts(
     state: State, actionable_heads: List[FlowHead]
 ) -> List[FlowHead]:
@@ -791,8 +802,8 @@ def _resolve_action_conflicts(
     advancing_heads: List[FlowHead] = []
     if len(actionable_heads) == 1:
         # If we have only one actionable head there is no conflict
-        advancing_heads = actionable_heads
-        _generate_action_event_from_actionable_element(state, list(actionable_heads)[0])
+        if _generate_action_event_or_fail_flow(state, list(actionable_heads)[0]):
+            advancing_heads = actionable_heads
     elif len(actionable_heads) > 1:
         # Group all actionable heads by their flows interaction loop
         head_groups: Dict[str, List[FlowHead]] = {}
@@ -834,8 +845,8 @@ def _resolve_action_conflicts(
                 picked_head.matching_scores,
             )
 
-            advancing_heads.append(picked_head)
-            _generate_action_event_from_actionable_element(state, picked_head)
+            if _generate_action_event_or_fail_flow(state, picked_head):
+                advancing_heads.append(picked_head)
             for head in ordered_heads:
                 if head == picked_head:
                     continue
